@@ -1,5 +1,7 @@
 """Bounded-exhaustive program families (DESIGN.md section 4).  generate(name, tier) yields cases
 in a fixed order; every member of the stated space is produced exactly once."""
+import copy
+import functools
 import itertools
 
 from . import lang
@@ -404,8 +406,46 @@ def d_rhs(T):
     return [("lit", lit(1.5)), ("var", V("x")), ("prod", B("*", V("x"), lit(2))), ("intvar", V("a")), ("mixed", B("+", V("x"), V("a")))]
 
 
+def d_deep_case(T, dims, storage, mode):
+    """Arrays of three and four dimensions: every cell is its own storage location (cells that differ only in an OUTER index too)."""
+    import itertools as it
+    num = (lambda k: lit(float(k))) if T == "float" else (lambda k: lit(k))
+    cells = list(it.product(*[range(d) for d in dims]))
+    at = lambda c: functools.reduce(lambda e, i: IDX(e, i), c, V("t"))
+    decl = [] if storage == "global" else [("decl", ("arr", T, tuple(dims)), "t", None)]
+    if mode == "fill":
+        writes = [ASG(at(c), num(10 + n)) for n, c in enumerate(cells)]
+        inputs_w = [{}]
+    elif mode == "one-dyn":
+        # one cell written through dynamic indices (parameters), every cell read back
+        writes = [ASG(functools.reduce(lambda e, n: IDX(e, V(n)), ["i0", "i1", "i2", "i3"][:len(dims)], V("t")), num(77))]
+        inputs_w = [dict(zip(["i0", "i1", "i2", "i3"], c)) for c in cells]
+    else:
+        raise ValueError(mode)
+    body = decl + writes + [("if", B("==", V("sel"), lit(n)), ("block", [("ret", at(c))]), None) for n, c in enumerate(cells)] + [("ret", num(0))]
+    params = [("int", "sel")] + [("int", n) for n in ["i0", "i1", "i2", "i3"][:len(dims)]]
+    f = func("f", params, T, body)
+    zero = 0.0 if T == "float" else 0
+    g0 = functools.reduce(lambda v, d: [copy.deepcopy(v) for _ in range(d)], reversed(dims), zero)
+    inputs = []
+    for w in inputs_w:
+        for sel in range(len(cells)):
+            a = {"sel": sel, **{n: 0 for n in ["i0", "i1", "i2", "i3"][:len(dims)]}}
+            a.update(w)
+            inputs.append((a, {"t": copy.deepcopy(g0)} if storage == "global" else {}))
+    return {"fam": "D", "desc": f"deep-array;dims={len(dims)};{storage};{mode};type={T}", "prog": {"globals": [(("arr", T, tuple(dims)), "t")] if storage == "global" else []},
+            "units": [{"funcs": [f], "entry": "f", "inputs": inputs}]}
+
+
 @family("D")
 def fam_D(tier):
+    for T in ("int", "float"):
+        for dims in ((2, 2, 2), (2, 3, 2), (3, 1, 2), (2, 2, 2, 2)):
+            for storage in ("local", "global"):
+                for mode in ("fill", "one-dyn"):
+                    if tier == "quick" and T == "float" and dims != (2, 2, 2):
+                        continue
+                    yield (d_deep_case, T, dims, storage, mode)
     shapes = [(2, 3), (3, 2), (2, 2)]
     for T in ("int", "float"):
         for si, shape in enumerate(shapes):
@@ -698,6 +738,12 @@ def fam_K(tier):
         ("int-ctor-local-as-index", "int", "arr[ik]"), ("float-ctor-of-int-literal", "float", "float(3) / 2"), ("folded-cast-in-vector-index", "float", "w4[gone(1.0)]"),
         ("folded-cast-in-int-division", "int", "7 / gone(2.0)"), ("call-result-as-index", "int", "arr[gone(1.0)]"), ("binary-index-mixed", "int", "arr[a - 1]"),
         ("large-int-lit", "float", "x + 16777217"), ("hex-lit", "float", "x + 0x10"), ("oct-lit", "float", "x + 010"),
+        # casts of casts: a literal narrowed explicitly and widened again by its context (the narrowing must survive folding)
+        ("narrowed-literal-in-float-product", "float", "int(2.7) * x"), ("uint-narrowed-literal-in-float-division", "float", "x + uint(7.9) / x"),
+        ("narrowed-literal-in-float-comparison", "int", "x < int(2.5)"), ("narrowed-literal-as-float-argument", "float", "gf(int(2.7))"),
+        ("narrowed-literal-in-float-ctor", "float4", "float4(int(2.7), x, uint(3.9), 1)"), ("widened-then-narrowed", "int", "int(float(7) / 2) + a"),
+        ("narrowed-twice", "float", "x * int(float(int(5.5)) + 0.75)"), ("narrowed-negative-context", "float", "x - int(1.5)"),
+        ("narrowed-vector-literal", "float2", "float2(int2(2.7, 3.9)) * x"), ("narrowed-literal-as-index-then-float", "float", "arr[int(1.9)] * x"),
     ]
     for name, rt, expr in sites:
         src = (f"function gf(float p) -> float {{ return p * 2.0; }}\nfunction gi(int p) -> int {{ return p * 2; }}\n"
@@ -1500,6 +1546,28 @@ def c_later_param_case(which, val, tag):
             "units": [{"funcs": [f], "entry": "f", "inputs": [({"sel": s_, "a0": 7, "a1": val}, {}) for s_ in (0, 1)]}]}
 
 
+def c_literal_site_case(tn, how):
+    """A call site whose arguments are all literals is executed several times; the callee writes to its parameters."""
+    T = {"int": "int", "float": "float"}[tn]
+    three, one = (lit(3), lit(1)) if tn == "int" else (lit(3.5), lit(1.0))
+    drain = func("drain", [(T, "k"), (T, "m")], T, [ASG(V("k"), B("-", V("k"), one)), ASG(V("m"), B("+", V("m"), V("k"))), ("ret", B("+", B("*", V("k"), lit(10)), V("m")))], export=False)
+    call = ("call", "drain", [three, one])
+    if how == "loop":
+        body = [("decl", T, "t", lit(0) if tn == "int" else lit(0.0)), ("for", ("decl", "int", "i", lit(0)), B("<", V("i"), lit(3)), ("pre", "++", "i"), ("block", [ASG(V("t"), B("+", B("*", V("t"), lit(2)), call))])), ("ret", V("t"))]
+        extra = []
+    elif how == "helper-called-twice":
+        extra = [func("once", [("int", "z")], T, [("ret", call)], export=False)]
+        body = [("ret", B("+", B("*", ("call", "once", [V("a")]), lit(3)), ("call", "once", [V("a")])))]
+    elif how == "recursion":
+        extra = [func("rec", [("int", "n")], T, [("if", B(">", V("n"), lit(0)), ("block", [("ret", B("+", call, ("call", "rec", [B("-", V("n"), lit(1))])))]), None), ("ret", call)], export=False)]
+        body = [("ret", ("call", "rec", [lit(2)]))]
+    else:
+        raise ValueError(how)
+    f = func("f", [("int", "a")], T, body)
+    return {"fam": "C", "desc": f"shape=literal-arguments-site-runs-again;{how};type={tn}", "prog": {"funcs": [drain] + extra},
+            "units": [{"funcs": [f], "entry": "f", "inputs": [({"a": 1}, {})]}]}
+
+
 C_OVERLOAD_SETS = {
     "vectors": ["int2", "float2", "float3", "float4"], "matrices-and-vectors": ["float3x3", "float4x4", "float3", "float4"],
     "scalars-and-vectors": ["int", "float", "int2", "float2"], "aggregates": ["PS", "int[3]", "float3", "int"],
@@ -1600,6 +1668,9 @@ def fam_C(tier):
                 yield (c_overload_case, pair, which, mutate)
     for which, val, tag in (("int", 5, 1), ("float", 1.5, 2), ("float4", [1.5, 2.5, 3.5, 4.5], 3)):
         yield (c_later_param_case, which, val, tag)
+    for tn in ("int", "float"):
+        for how in ("loop", "helper-called-twice", "recursion"):
+            yield (c_literal_site_case, tn, how)
     for setname in C_OVERLOAD_SETS:
         for order in itertools.permutations(range(4)):
             if tier == "quick" and order[0] > order[-1] and setname != "vectors":
@@ -1788,6 +1859,14 @@ def v_misc_units(tier):
             add([(T, "v"), (c, "s")], T, B("*", V("v"), V("s")), [({"v": a, "s": sc}, {})], f"vector*scalar;{c}")
             add([(T, "v"), (c, "s")], T, B("*", V("s"), V("v")), [({"v": a, "s": sc}, {})], f"scalar*vector;{c}")
             add([(T, "v"), (c, "s")], T, B("/", V("v"), V("s")), [({"v": b, "s": sc}, {})], f"vector/scalar;{c}")
+            # signs: every component behaves like the scalar operation (integer division truncates toward zero, % follows the dividend)
+            sg = [-7, 6, -9, 7][:n] if c == "int" else [-7.0, 6.0, -9.0, 7.5][:n]
+            for sv in ((2, -2, 4) if c == "int" else (2.0, -4.0)):
+                add([(T, "v"), (c, "s")], T, B("/", V("v"), V("s")), [({"v": sg, "s": sv}, {})], f"vector/scalar;{c};signed")
+                add([(T, "v"), (c, "s")], T, B("*", V("v"), V("s")), [({"v": sg, "s": sv}, {})], f"vector*scalar;{c};signed")
+            add([(T, "v"), (T, "w")], T, B("-", V("v"), V("w")), [({"v": sg, "w": list(reversed(sg))}, {})], f"vector-vector;{c};signed")
+            if c == "int":
+                add([(T, "v"), (T, "w")], T, B("%", V("v"), V("w")), [({"v": sg, "w": [2, -4, 5, -3][:n]}, {})], "vector%vector;int;signed")
             if c == "int":
                 add([(T, "v"), (T, "w")], T, B("%", V("w"), V("v")), [({"v": a, "w": b}, {})], "vector%vector;int")
             add([(T, "v"), (T, "w")], T, B("&&", V("v"), V("w")), [({"v": [0] + a[1:] if c == "int" else [0.0] + a[1:], "w": b}, {})], f"vector&&vector;{c}")
@@ -2324,6 +2403,17 @@ W_OUTSIDE = [
     ("return-value-in-void", "export function f(int a) -> void { return a; }"),
     ("store-float-to-int-parameter", "export function f(int a, float x) -> int { a = x; return a; }"),
     ("store-int-to-float-parameter", "export function f(int a, float x) -> float { x = a; return x * 0.5; }"),
+    ("return-int-literal-as-float", "export function f(float x) -> float { return 1; }"),
+    ("return-float-literal-as-int", "export function f(int a) -> int { return 1.5; }"),
+    ("return-int-literal-as-uint", "export function f(uint u) -> uint { return 5; }"),
+    ("return-large-literal-as-uint", "export function f(uint u) -> uint { return 3000000000; }"),
+    ("return-negative-literal-as-uint", "export function f(uint u) -> uint { return -5; }"),
+    ("store-int-literal-to-float-parameter", "export function f(int a, float x) -> float { x = 2; return x * 0.5; }"),
+    ("store-float-literal-to-int-parameter", "export function f(int a, float x) -> int { a = 2.5; return a; }"),
+    ("store-int-literal-to-uint-parameter", "export function f(uint u) -> uint { u = 7; return u / 2; }"),
+    ("store-negative-literal-to-uint-parameter", "export function f(uint u) -> uint { u = -7; return u / 2; }"),
+    ("int-literal-operand-of-float", "export function f(float x) -> float { return x + 1; }"),
+    ("float-literal-operand-of-int", "export function f(int a) -> float { return a + 1.5; }"),
     # a function with a result whose body never returns, alone / after / before functions that do return
     ("no-return;alone", "export function f(int a) -> int { a = a + 1; }"),
     ("no-return;empty-body", "export function f(int a) -> float { }"),
